@@ -18,6 +18,11 @@ def predicate(pc, pi):
         if isinstance(o, list) and o and o[0] == 'err':
             return 'looking up / inserting %s panicked at %s' % (tt, core.sx_show(o[-1]))
         lk, pure, dcls, dnodes, sl_add, eq_add_orig = o[1], o[2], o[3], o[4], o[5], o[6]
+        raw = o[7] if len(o) > 7 else None
+        if raw is not None and raw[1] != len(sl_add):
+            return 'inserting %s returns an invocation with %d slot arguments; the term has %d non-redundant free slots' % (tt, raw[1], len(sl_add))
+        if raw is not None and isinstance(lk, list) and raw[2] != 'na' and raw[2] != len(lk[1]):
+            return 'lookup of %s returns an invocation with %d slot arguments; the class has %d slots' % (tt, raw[2], len(lk[1]))
         if pure != 'true':
             return 'lookup_rec_expr(%s) modified the e-graph' % tt
         found = isinstance(lk, list)
